@@ -28,6 +28,8 @@ func init() {
 				Old: "\twalker.RegisterEnterOperationVisitor(&visitor)\n\twalker.RegisterVariableDefinitionVisitor(&visitor)\n", New: "\twalker.RegisterVariableDefinitionVisitor(&visitor)\n"},
 			{Name: "upload paths no longer reset per document (the repaired defect F8)", File: "v2/pkg/astnormalization/variables_extraction.go", Rule: "C03-R1", Key: "state-reset/variablesExtractionVisitor.uploadsPath",
 				Old: "\tv.uploadsPath = nil\n", New: ""},
+			{Name: "coercion path cleared only on leave (the repaired defect F10)", File: "v2/pkg/astnormalization/input_coercion_for_list.go", Rule: "C03-R1", Key: "state-reset/inputCoercionForListVisitor.query",
+				Old: "\t// a walk stopped inside a variable definition skips LeaveVariableDefinition\n\ti.query = i.query[:0]\n", New: ""},
 			{Name: "fragment inlining before cycle detection", File: astnormGo, Rule: "C03-R2", Key: "preventFragmentCycles<fragmentSpreadInline",
 				Old: "\tdirectivesIncludeSkip := astvisitor.NewWalkerWithID(8, \"DirectivesIncludeSkip\")\n\tpreventFragmentCycles(&directivesIncludeSkip)\n", New: "\tdirectivesIncludeSkip := astvisitor.NewWalkerWithID(8, \"DirectivesIncludeSkip\")\n"},
 			{Name: "inline-fragment flattening stage lost", File: astnormGo, Rule: "C03-R2", Key: "inlineSelectionsFromInlineFragments<mergeInlineFragmentSelections",
